@@ -30,7 +30,7 @@ pub fn check(drv: &mut Driver, ev: &mut Ev, case: &EncCase, enumerated: bool) {
     if tr { println!("TRACE {} | calls: {} | bytes={} ends={:?} pending_after={:?}", case.describe(), fmt_calls(&out.calls), hex(&out.bytes), out.ends, out.pending_after); }
     ev.count("roundtrip.histories");
     if case.atoms.iter().any(|a| *a >= 0x80 || *a == 0x1B) { if enumerated { ev.nontrivial_enum(); } else { ev.nontrivial_hash(case.hash()); } }
-    let key = |k: &str| format!("{}:{}:{}", oe.name(), if case.src16 { "utf16" } else { "utf8" }, k);
+    let key = |k: &str| format!("{}:{}:{}", crate::c01::family(oe), if case.src16 { "utf16" } else { "utf8" }, k);
     if out.fail_of(&[FailKind::Panic, FailKind::Stuck]).is_some() { ev.count("roundtrip.aborted(panic/stuck: C06/C08)"); return; }
     // (1) every prefix decodes without error; (2) has_pending_state after every call
     // without replacement the caller follows the documented procedure and writes the numeric character
